@@ -152,10 +152,10 @@ def run(ctx):
                    pb.loc(), "")
     chk.floor("instruction shapes checked against the reference encoding", n, 2000)
     # the step before: a source line becomes the AST value of the same instruction with every operand in place (the clauses
-    # ast/* of the parser rule C03; nothing else of that rule is reported here)
+    # ast/* and numeric/value of the parser rule C03; nothing else of that rule is reported here)
     from . import C03
     orig_ob, orig_assume, orig_sample, orig_note = chk.ob, chk.assume, chk.sample, chk.note
-    chk.ob = lambda key, *a, **k: orig_ob(key, *a, **k) if str(key).startswith("ast/") else None
+    chk.ob = lambda key, *a, **k: orig_ob(key, *a, **k) if str(key).startswith(("ast/", "numeric/value")) else None
     chk.assume = chk.sample = chk.note = lambda *a, **k: None
     chk.prefix = "parse/"
     try:
